@@ -31,7 +31,7 @@ def main(argv):
     records = []
     stats_all = []
     metas = []
-    for name, res, stats, meta in core.run_jobs(jobs, job_timeout=getattr(mod, "JOB_TIMEOUT", {}).get(tier, 900 if tier == "quick" else 3000)):
+    for name, res, stats, meta in core.run_jobs(jobs, job_timeout=getattr(mod, "JOB_TIMEOUT", {}).get(tier, 900 if tier == "quick" else 3000), per_process=getattr(mod, "JOBS_PER_PROCESS", 1)):
         for r in res:
             r["job"] = name
         records += res
